@@ -98,6 +98,16 @@ impl Val {
     }
 }
 
+thread_local! {
+    static BOUNDARY: core::cell::Cell<u8> = const { core::cell::Cell::new(0) };
+}
+pub fn boundary_mode() -> u8 {
+    BOUNDARY.with(|b| b.get())
+}
+pub fn set_boundary_mode(m: u8) {
+    BOUNDARY.with(|b| b.set(m));
+}
+
 /// Value generator drawing from one tape stream.
 pub struct Gen<'a> {
     pub d: &'a mut Decider,
@@ -178,6 +188,13 @@ impl<'a> Gen<'a> {
     /// the planner's clamp produces messages that exactly fill `max_msg_len`).
     pub fn len(&mut self) -> usize {
         let s = self.scale as u32;
+        // boundary mode (set per run by the planner): most lengths sit right at the maximum of
+        // a u8 (1) or u16 (2) length / offset type
+        match boundary_mode() {
+            1 if self.scale >= 255 && self.chance(3, 5) => return 246 + self.d.below(self.st, 12) as usize,
+            2 if self.scale >= 65535 && self.chance(3, 5) => return 65526 + self.d.below(self.st, 12) as usize,
+            _ => {}
+        }
         // when the scale allows it, lengths right at the maximum of a u8 / u16 length or offset
         // type are a choice of their own
         let b8 = if self.scale >= 255 { 2 } else { 0 };
